@@ -186,6 +186,14 @@ func (in *Interp) runModule(m *module) ctl {
 	return ctlNone
 }
 
+// capLen keeps generated programs from doubling strings without bound (s += s in nested loops).
+func (in *Interp) capLen(s string) string {
+	if len(s) > 4000 {
+		panic(Invalid{"string-too-long"})
+	}
+	return s
+}
+
 func (in *Interp) step() {
 	in.steps++
 	if in.steps > in.MaxSteps {
@@ -298,7 +306,7 @@ func (in *Interp) eval(e Expr) Value {
 		l := in.eval(x.L)
 		r := in.eval(x.R)
 		if x.Ty == TString {
-			return l.(string) + r.(string)
+			return in.capLen(l.(string) + r.(string))
 		}
 		return in.arith(x.Op, l.(int64), r.(int64))
 	case Call:
@@ -647,7 +655,7 @@ func (in *Interp) exec2(s Stmt, top bool) ctl {
 		cur := *in.lookup(x.Name)
 		v := in.eval(x.Val)
 		if x.Ty == TString {
-			in.setVar(x.Name, cur.(string)+v.(string))
+			in.setVar(x.Name, in.capLen(cur.(string)+v.(string)))
 		} else {
 			in.setVar(x.Name, in.arith(x.Op, cur.(int64), v.(int64)))
 		}
